@@ -171,6 +171,16 @@ let () =
                       | OMsg (MsgTable c) -> Printf.sprintf "T%d" (int_of_z c)
                       | OMsg (MsgIdn c) -> Printf.sprintf "I%d" (int_of_z c)
                       | OMsg MsgNull -> "N" | _ -> "?") ^ suffix s
+            | 'n' ->     (* (NULL, 0): the length test comes first, so this is the empty address *)
+              calls := 0; argok := true;
+              let idn = mk_idn None 0 [] false in
+              let (s, o) = step idn g table !st (IsEmail []) in st := s;
+              (match o, s.e_result with
+               | ORet z, Some r ->
+                 let live = int_of_z s.e_live - 1 + live_of r in
+                 Printf.sprintf "R%d:%d:%d:%d,%d,%s,%d,%s" (int_of_z z) (int_of_z s.e_errcode) live
+                   (int_of_z r.rc) (int_of_z r.idn_rc) (flags r) !calls (b01 !argok)
+               | OFault, _ -> "FAULT" | OAbort, _ -> "ABORT" | _ -> "?")
             | 'e' ->
               (match String.split_on_char '/' rest with
                | [a; orc; oa; ob] ->
